@@ -635,6 +635,11 @@ func (d *ioDriver) ledger() int {
 }
 
 func (d *ioDriver) checkPending(after string) {
+	// every action is issued from the top level (no completion callback is on the stack when it returns): the
+	// dispatch depth is back to zero, whatever was parked in between
+	if got := d.ioc.Dispatched; got != 0 {
+		d.fail("io.Dispatched/not-zero-at-top-level", "after %s, with no callback on the stack, IO.Dispatched=%d (%s)", after, got, d.describeLedger())
+	}
 	if !d.c03 {
 		return
 	}
